@@ -80,6 +80,9 @@ func (p *publisher) publishUpdates(reqs requests) {
 	batchedUpdates := make(map[uint64]*pb.KVList)
 	for _, req := range reqs {
 		for _, e := range req.Entries {
+			if e.skipPublish {
+				continue
+			}
 			// Match on the user key: e.Key carries the 8-byte timestamp suffix,
 			// whose bytes must not take part in prefix matching.
 			ids := p.indexer.Get(y.ParseKey(e.Key))
